@@ -174,6 +174,26 @@ class ExcFlow:
                     if x not in out:
                         out.append(x)
             return out
+        if isinstance(d, (ast.DictComp, ast.ListComp, ast.GeneratorExp, ast.SetComp)):
+            # a table computed from names: {n: getattr(self, f"prefix{n}") for n in ...} holds the methods with that prefix
+            val = d.value if isinstance(d, ast.DictComp) else d.elt
+            if isinstance(val, ast.Call) and isinstance(val.func, ast.Name) and val.func.id == "getattr" and len(val.args) >= 2:
+                c = self.recv_class(fi, val.args[0], local_types)
+                nm = val.args[1]
+                prefix = None
+                if isinstance(nm, ast.JoinedStr) and nm.values and isinstance(nm.values[0], ast.Constant):
+                    prefix = str(nm.values[0].value)
+                elif isinstance(nm, ast.BinOp) and isinstance(nm.op, ast.Add) and isinstance(nm.left, ast.Constant) and isinstance(nm.left.value, str):
+                    prefix = nm.left.value
+                if c is not None and prefix:
+                    out = []
+                    for k in c.mro():
+                        for mn, mf in k.methods.items():
+                            if mn.startswith(prefix) and mf not in out:
+                                out.append(mf)
+                    return out
+            r = self.callable_targets(fi, val, local_types, bindings)
+            return r
         if isinstance(d, ast.Name):
             res = None
             for v in self._local_values(fi, d.id):
